@@ -71,6 +71,39 @@ def adopt(name, wt, crate, demo_file, prop, needs):
     return 0
 
 
+def run_wt(name, checks, tier="quick"):
+    """Evaluate in a scratch worktree (outside /repo and /verif) via VERIF_REPO;
+    /repo is not touched, several of these can run side by side."""
+    d = os.path.join(SEEDED, name)
+    meta = json.load(open(os.path.join(d, "meta.json")))
+    if not checks:
+        checks = [meta["breaks_property"]]
+    wt = "/tmp/seeded_wt/" + name
+    sh("git -C /repo worktree remove --force %s" % wt)
+    os.makedirs("/tmp/seeded_wt", exist_ok=True)
+    rc, out = sh("git -C /repo worktree add --detach %s HEAD" % wt)
+    assert rc == 0, out
+    rc, out = sh("git apply %s" % os.path.join(d, "patch.diff"), cwd=wt)
+    assert rc == 0, out
+    results = []
+    try:
+        for c in checks:
+            t0 = time.time()
+            rc, out = sh("VERIF_REPO=%s ./check %s --tier %s" % (wt, c, tier), cwd=VERIF, timeout=14000)
+            viol = [l for l in out.split("\n") if l.startswith("VIOLATION") or l.startswith("  FAILED") or l.startswith("ERROR")]
+            results.append(dict(check=c, tier=tier, exit=rc, seconds=round(time.time() - t0), lines=viol[:12]))
+            print(c, "exit", rc, "\n  " + "\n  ".join(viol[:8]))
+    finally:
+        sh("git -C /repo worktree remove --force %s" % wt)
+        tag = wt.replace("/", "_").replace("-", "_")
+        shutil.rmtree(os.path.join(VERIF, "work", "alt", tag), ignore_errors=True)
+    meta = json.load(open(os.path.join(d, "meta.json")))
+    meta["checks_run"] = [r for r in meta.get("checks_run", []) if not any(r["check"] == x["check"] and r["tier"] == x["tier"] for x in results)] + results
+    meta["detected_by"] = sorted(set(meta.get("detected_by", []) + [r["check"] for r in results if r["exit"] == 1]))
+    json.dump(meta, open(os.path.join(d, "meta.json"), "w"), indent=1)
+    return 0
+
+
 def run(name, checks, tier="quick"):
     d = os.path.join(SEEDED, name)
     meta = json.load(open(os.path.join(d, "meta.json")))
@@ -99,6 +132,13 @@ def run(name, checks, tier="quick"):
 if __name__ == "__main__":
     if sys.argv[1] == "adopt":
         sys.exit(adopt(*sys.argv[2:8]))
+    elif sys.argv[1] == "runwt":
+        tier = "quick"
+        args = sys.argv[3:]
+        if args and args[0] in ("--thorough",):
+            tier = "thorough"
+            args = args[1:]
+        sys.exit(run_wt(sys.argv[2], args, tier))
     elif sys.argv[1] == "run":
         tier = "quick"
         args = sys.argv[3:]
